@@ -301,7 +301,93 @@ def do_history(req):
     return {'status': 'ok', 'results': res}
 
 
-HANDLERS = {'history': do_history, 'solve': do_solve, 'transform': do_transform, 'loop': do_loop, 'pyparse': do_pyparse, 'gparse': do_gparse}
+
+def do_theory(req):
+    """runs transform + imain on a program whose &tel atoms occur as  :- &tel { phi_i }, m(i).  and records, per solving step, what
+    Theory.translate does on clingo's backend (fresh atoms, rules, externals) together with the theory atoms of the step in the order
+    Theory.translate sees them (with the index i of their observer) and the table literal -> symbolic atom"""
+    texts, imax = req['texts'], req['imax']
+    msgs = []
+    prg = clingo.Control(['0', '--eq=0'], logger=lambda c, m: msgs.append(str(m)), message_limit=20)
+    grules = []
+
+    class Obs(clingo.Observer):
+        def rule(self, choice, head, body):
+            if not choice and len(head) == 0 and 2 <= len(body) <= 3:
+                grules.append(tuple(body))
+    prg.register_observer(Obs())
+    try:
+        with ProgramBuilder(prg) as bld:
+            fs, parts = tf.transform(texts, bld.add)
+    except Exception as e:  # noqa
+        r = exc_info(e)
+        r['stage'] = 'transform'
+        return r
+    steps = []
+    cur = {'events': [], 'atoms': [], 'symbols': {}}
+
+    class BackendProxy:
+        def __init__(self, b):
+            self.b = b
+
+        def __enter__(self):
+            self.inner = self.b.__enter__()
+            return self
+
+        def __exit__(self, *a):
+            return self.b.__exit__(*a)
+
+        def add_atom(self, sym=None):
+            r = self.inner.add_atom(sym) if sym is not None else self.inner.add_atom()
+            cur['events'].append(['atom', r])
+            return r
+
+        def add_rule(self, head, body=[], choice=False):
+            cur['events'].append(['rule', list(head), list(body), bool(choice)])
+            return self.inner.add_rule(head, body, choice)
+
+        def add_external(self, atom, value=clingo.TruthValue.False_):
+            cur['events'].append(['ext', atom, str(value).split('.')[-1].strip('_').lower()])
+            return self.inner.add_external(atom, value)
+
+    class CtlProxy:
+        def __getattr__(self, name):
+            return getattr(prg, name)
+
+        def backend(self):
+            return BackendProxy(prg.backend())
+
+        def ground(self, parts_, context=None):
+            del grules[:]
+            prg.ground(parts_)
+            cur['events'], cur['atoms'], cur['symbols'] = [], [], {}
+            for a in prg.symbolic_atoms:
+                cur['symbols'][a.literal] = sym_to_tuple(a.symbol)
+            owner = {}
+            for b in grules:
+                ms = [cur['symbols'][y] for y in b if y in cur['symbols'] and cur['symbols'][y][0] == 'm' and len(cur['symbols'][y][1]) == 1]
+                if len(ms) == 1:
+                    for x in b:
+                        if x not in cur['symbols']:
+                            owner[x] = min(owner.get(x, 10 ** 9), int(ms[0][1][0]))
+            for a in prg.theory_atoms:
+                if a.term.name in ('tel', 'del') and len(a.term.arguments) == 1:
+                    cur['atoms'].append([a.term.arguments[0].number, a.literal, owner.get(a.literal)])
+
+        def solve(self, *a, **kw):
+            steps.append({'events': cur['events'], 'atoms': cur['atoms'], 'symbols': {str(k): v for k, v in cur['symbols'].items()}})
+            cur['events'] = []
+            return prg.solve(*a, **kw)
+    try:
+        telingo.imain(CtlProxy(), fs, parts, lambda m, s: None, imin=imax, imax=imax, istop='UNKNOWN')
+    except Exception as e:  # noqa
+        r = exc_info(e)
+        r['stage'] = 'imain'
+        return r
+    return {'status': 'ok', 'steps': steps}
+
+
+HANDLERS = {'theory': do_theory, 'history': do_history, 'solve': do_solve, 'transform': do_transform, 'loop': do_loop, 'pyparse': do_pyparse, 'gparse': do_gparse}
 
 
 def main():
